@@ -5,6 +5,7 @@ import (
 	"fmt"
 	"strconv"
 	"strings"
+	"sync"
 	"testing"
 	"time"
 
@@ -282,4 +283,53 @@ func TestC04Types(t *testing.T) {
 		}
 	}
 	hC04.Extra("type_sweep_cases", n)
+}
+
+// TestC04Concurrent: the same property from eight goroutines at once, each over its own cases (unrelated
+// lines, unknown record types among them). Nothing in the property allows the outcome for one line to
+// depend on what other goroutines parse; a process that dies here is reported through the crash file.
+func TestC04Concurrent(t *testing.T) {
+	rounds := hx.EnvInt("VERIF_N", 300)
+	gen := rapid.Custom(func(rt *rapid.T) C04Case { return genC04(rt) })
+	for r := 0; r < rounds; r++ {
+		const G = 8
+		cases := make([][]C04Case, G)
+		for g := range cases {
+			for i := 0; i < 24; i++ {
+				c := gen.Example(int(hx.Seed())*1000003 + (r*G+g)*24 + i)
+				// unknown types that no earlier round has touched: first sightings happen in parallel
+				if i%3 == 0 {
+					c.Typ = uint16(3000 + (r*G*8+g*8+i/3)%60000)
+				}
+				cases[g] = append(cases[g], c)
+			}
+		}
+		hC04.BeginLimit("TestC04", cases[0][0], 120*time.Second)
+		errs := make([]error, G)
+		bad := make([]C04Case, G)
+		var wg sync.WaitGroup
+		start := make(chan struct{})
+		for g := 0; g < G; g++ {
+			wg.Add(1)
+			go func(g int) {
+				defer wg.Done()
+				<-start
+				for _, c := range cases[g] {
+					if err := hx.Guard(propC04, c); err != nil && errs[g] == nil {
+						errs[g], bad[g] = err, c
+					}
+				}
+			}(g)
+		}
+		close(start)
+		wg.Wait()
+		hC04.End()
+		for g := range errs {
+			hC04.Eval()
+			if errs[g] != nil {
+				hC04.Fail(t, "TestC04", bad[g], "while seven other goroutines were parsing other lines: %v", errs[g])
+			}
+		}
+		hC04.Class("concurrent-round")
+	}
 }
